@@ -388,6 +388,13 @@ Token:
 
             if ltrim {
                 str = strings.TrimLeftFunc(str, unicode.IsSpace)
+                if str == "" {
+                    // The scanner may deliver one template literal as several
+                    // consecutive tokens (one per line, and around "$" and "%"),
+                    // so a literal token that was entirely whitespace means the
+                    // whitespace run continues into the next literal token.
+                    ltrimNext = true
+                }
             }
 
             parts = append(parts, &templateLiteralToken{
@@ -400,11 +407,8 @@ Token:
             // if the opener is ${~ then we want to eat any trailing whitespace
             // in the preceding literal token, assuming it is indeed a literal
             // token.
-            if canTrimPrev && len(next.Bytes) == 3 && next.Bytes[2] == '~' && len(parts) > 0 {
-                prevExpr := parts[len(parts)-1]
-                if lexpr, ok := prevExpr.(*templateLiteralToken); ok {
-                    lexpr.Val = strings.TrimRightFunc(lexpr.Val, unicode.IsSpace)
-                }
+            if canTrimPrev && len(next.Bytes) == 3 && next.Bytes[2] == '~' {
+                trimTrailingTemplateSpace(parts)
             }
 
             p.PushIncludeNewlines(false)
@@ -453,11 +457,8 @@ Token:
             // if the opener is %{~ then we want to eat any trailing whitespace
             // in the preceding literal token, assuming it is indeed a literal
             // token.
-            if canTrimPrev && len(next.Bytes) == 3 && next.Bytes[2] == '~' && len(parts) > 0 {
-                prevExpr := parts[len(parts)-1]
-                if lexpr, ok := prevExpr.(*templateLiteralToken); ok {
-                    lexpr.Val = strings.TrimRightFunc(lexpr.Val, unicode.IsSpace)
-                }
+            if canTrimPrev && len(next.Bytes) == 3 && next.Bytes[2] == '~' {
+                trimTrailingTemplateSpace(parts)
             }
             p.PushIncludeNewlines(false)
 
@@ -662,6 +663,24 @@ Token:
     }
 
     return ret, diags
+}
+
+// trimTrailingTemplateSpace removes the whitespace that ends the template
+// literal preceding a "~" strip marker. The scanner may deliver one literal as
+// several consecutive tokens (one per line, and around "$" and "%"), so we keep
+// trimming backwards through literal tokens until one of them retains some
+// non-whitespace content.
+func trimTrailingTemplateSpace(parts []templateToken) {
+    for i := len(parts) - 1; i >= 0; i-- {
+        lexpr, ok := parts[i].(*templateLiteralToken)
+        if !ok {
+            return
+        }
+        lexpr.Val = strings.TrimRightFunc(lexpr.Val, unicode.IsSpace)
+        if lexpr.Val != "" {
+            return
+        }
+    }
 }
 
 // flushHeredocTemplateParts modifies in-place the line-leading literal strings
